@@ -911,9 +911,11 @@ class _Evaluator:
                 except re.error:
                     ok = False
             if not ok:
-                # a REGEX that contains a sandbox path can be compiled only when the sandbox exists
+                # a REGEX that contains a path of the test case directory structure is compiled when the directories
+                # are known (the sandbox: only at execution; the program treats the home directory alike)
                 sds = str(PurePosixPath(self.roots['act']).parent)
-                self.out.soft.append('regex-invalid-sandbox-path' if (v is not UNKNOWN and sds in v)
+                self.out.soft.append('regex-invalid-sandbox-path'
+                                     if (v is not UNKNOWN and (sds in v or self.roots['home'] in v))
                                      else 'regex-invalid')
         sub = {('line-matcher', 'contents'): [('text-matcher', 'm')], ('line-matcher', 'line-num'): [('integer-matcher', 'm')],
                ('text-matcher', 'equals'): [('text-source', 's')], ('text-matcher', 'num-lines'): [('integer-matcher', 'm')],
